@@ -63,4 +63,11 @@ def run(tier: str, rep: Report, prefixes=("P12.",), pid=PID):
         parts = evid.split(":")
         return f"{pid}/{'+'.join(sorted(set(c.split('.')[1] for c in clauses)))}/{parts[0]}/ver{parts[1]}"
 
+    def corrupt(e):
+        if "steps" not in e or not e["steps"]:
+            return None
+        e["steps"][-1]["changed"] = [1]
+        return e
+
+    df.negative_control(rep, files, "Trace_Api", corrupt, ("P12.pure",))
     df.classify(rep, fails, prefixes, pid, keyfn)
